@@ -26,8 +26,8 @@ ASSUMPTIONS = ['ThreadSanitizer (happens-before, clang 14) sees only instrumente
                'schedules are perturbed (seeded yields/sleeps between items, OS scheduling), not enumerated; no XERCES_VERIF_HOOKS sites exist',
                'a data-race report / digest mismatch / crash observed once is evidence (replay = up to 6 attempts); only hangs need 3/3',
                'known findings are stepped over by a main-thread warm-up of exactly the racy facility (counted in excluded_known)']
-BUDGET = {'quick': 56, 'thorough': 900}
-WALLCAP = {'quick': 400, 'thorough': 3000}
+BUDGET = {'quick': 40, 'thorough': 600}
+WALLCAP = {'quick': 900, 'thorough': 4500}
 
 # ---------------------------------------------------------------------------------------------------------------
 # Known findings (genuine races on the unchanged tree).  id -> (signature predicate on a parsed TSan report,
@@ -40,7 +40,9 @@ def _sig_kidok(rep):
 _RT_FUNCS = ('RangeTokenMap::getRange', 'RangeTokenElemMap::getRangeToken', 'RangeTokenElemMap::setRangeToken', 'RangeTokenMap::setRangeToken')
 def _sig_rangetoken(rep):
     # double-checked locking: unlocked read in getRange() vs. the locked initialisation (buildRanges -> setRangeToken, token construction)
+    # (one side always holds fMutex -- with the lock itself gone the report is NOT this finding)
     if rep['kind'] != 'data race' or not rep['stacks']: return False
+    if not any('mutexes: write' in h for h in rep.get('heads', [])): return False
     return any('RangeTokenMap::getRange' in f for s in rep['stacks'][:2] for f in s) and \
            all(any(('RangeTokenMap::getRange' in f) or ('RangeFactory' in f and 'buildRanges' in f) for f in s) for s in rep['stacks'][:2])
 
@@ -61,7 +63,12 @@ def _sig_regexmap(rep):
     hit = lambda s, n=3: any(any(x in f for x in _LAZY_MAP) for f in s[:n])
     return all(hit(s) or hit(rep['loc'], 8) for s in rep['stacks'][:2])
 
+def _sig_wsfacets(rep):
+    return rep['kind'] == 'data race' and bool(rep['tops']) and all('TraverseSchema::getElementAttValue' in t for t in rep['tops'])
+
 KNOWN = {
+    'C17-traverseschema-wsfacets-lazy': dict(sig=_sig_wsfacets, warm='schemaload', facs=('schema-load',),
+        what='TraverseSchema::getElementAttValue fills the function-local static wsFacets[] lazily (flag set before the table is filled) when two threads load their first schema concurrently'),
     'C17-lockedpool-lazy-contentmodel': dict(sig=_sig_contentmodel, warm='pool', facs=('shared-pool',),
         what='grammars of a lockPool()ed XMLGrammarPoolImpl create their content models lazily and unsynchronised (ComplexTypeInfo/DTDElementDecl::getContentModel) when parsers in different threads validate with them'),
     'C17-shared-regex-lazy-map': dict(sig=_sig_regexmap, warm='pool', facs=('shared-pool',),
@@ -76,6 +83,7 @@ KNOWN = {
         what='RangeToken::getCaseInsensitiveToken caches a token owned by the calling regex in the process-wide category token without synchronisation (data race; use-after-free once that regex is destroyed)'),
 }
 ACTIVE = [
+    'C17-traverseschema-wsfacets-lazy',
     'C17-lockedpool-lazy-contentmodel',
     'C17-shared-regex-lazy-map',
     'C17-iskidok-lazy-table',
@@ -199,8 +207,8 @@ def parse_tsan(stderr):
                 cur = (line.strip(), []); sections.append(cur)
             elif not line.strip():
                 cur = None
-        acc = [fr for h, fr in sections if re.match(r'(Previous )?(atomic )?(read|write) of size', h, re.I)]
-        if not acc: acc = [fr for h, fr in sections[:2]]
+        accs = [(h, fr) for h, fr in sections if re.match(r'(Previous )?(atomic )?(read|write) of size', h, re.I)] or sections[:2]
+        acc = [fr for h, fr in accs]; heads = [h for h, fr in accs]
         loc = [fr for h, fr in sections if h.startswith('Location is heap block')]
         allst = [fr for h, fr in sections if not h.startswith('Thread T') and not h.startswith('Mutex M')]
         xer = any(is_xerces_frame(f) for s in allst for f in s)
@@ -208,7 +216,7 @@ def parse_tsan(stderr):
         for s in acc[:2]:
             xs = [f for f in s if is_xerces_frame(f)]
             if xs: tops.append(xs[0])
-        reps.append({'kind': kind, 'text': ch.strip()[:6000], 'stacks': acc[:2], 'loc': loc[0] if loc else [], 'tops': tops, 'xerces': xer})
+        reps.append({'kind': kind, 'text': ch.strip()[:6000], 'stacks': acc[:2], 'heads': heads[:2], 'loc': loc[0] if loc else [], 'tops': tops, 'xerces': xer})
     return reps
 
 def classify_report(rep):
@@ -257,7 +265,7 @@ def run_once(case, halt=True):
     if res['known'] and problems:
         # a known race fired in this (not warmed-up) run: further reports / effects in the same run may be consequences of it
         # (e.g. reads of the token published through the racy pointer); the warmed-up cases search behind the finding
-        res['shadowed'] = len(problems); problems = []
+        res['shadowed'] = len(problems); res['shadowed_text'] = [re.sub(r'\s+', ' ', x)[:300] for x in problems[:3]]; problems = []
         res['status'] = 'ok'; return res
     if summary is not None and not summary['digests_equal']:
         problems.append('per-thread results differ from the single-threaded re-run: ' + summary.get('mismatch', ''))
@@ -432,8 +440,7 @@ def item_strategy(pool):
 
 @st.composite
 def case_strategy(draw, tier='quick'):
-    ns = [2, 2, 3, 3, 4, 4, 8] if tier == 'quick' else [2, 3, 4, 4, 8, 8, 16]
-    if tier == 'quick' and draw(st.integers(0, 15)) == 0: ns = [16]
+    ns = [2, 2, 2, 3, 3, 3, 4, 4, 4, 4, 8, 8, 16] if tier == 'quick' else [2, 3, 3, 4, 4, 8, 8, 16]
     n = draw(st.sampled_from(ns))
     pool = draw(st.sampled_from([None, None, None, 'xsd', 'xsdcat', 'dtd', 'both']))
     maxlen = 12 if n <= 4 else 6
@@ -444,14 +451,14 @@ def case_strategy(draw, tier='quick'):
         gen = {'dom': dom_item(), 'regex': regex_item(), 'xcode': xcode_item(), 'parse': parse_item(), 'pparse': pparse_item(pool) if pool else parse_item()}[lead]
         threads = [[draw(gen)] + t for t in threads]
     case = {'threads': threads, 'seed': draw(st.integers(0, 2 ** 32 - 1)), 'perturb': int(draw(st.booleans())), 'pool': pool,
-            'flavour': 'asan' if draw(st.integers(0, 5)) == 0 else 'tsan'}
+            'flavour': draw(st.sampled_from(['tsan'] * 5 + ['asan']))}
     # step over active known findings in 7 of 8 cases; the remaining ones keep measuring that the finding is still there
-    cold = draw(st.integers(0, 7)) == 0
+    cold = draw(st.sampled_from([False] * 7 + [True]))
     case['prewarm'] = [] if cold else list(WARMABLE)
     return case
 
 # ---------------------------------------------------------------------------------------------------------------
-LAZY = ('rangetoken:complement', 'kidOK', 'domimpl-registry', 'doctype-ownerless', 'lcp', 'transservice',
+LAZY = ('rangetoken:complement', 'kidOK', 'schema-load', 'domimpl-registry', 'doctype-ownerless', 'lcp', 'transservice',
         'uripool', 'shared-pool', 'scanner-id', 'msgload')
 
 def labels_of(case, summary):
@@ -489,7 +496,9 @@ def worker(ctx):
             st_.extra['known_reports'][kid] = st_.extra['known_reports'].get(kid, 0) + 1
         nx = sum(1 for t in case['threads'] for it in t if it.get('excluded') == 'C17-rangetoken-casei-cache')
         if nx: st_.excluded_known['C17-rangetoken-casei-cache'] += nx
-        if r.get('shadowed'): st_.extra['shadowed_by_known'] = st_.extra.get('shadowed_by_known', 0) + r['shadowed']
+        if r.get('shadowed'):
+            st_.extra['shadowed_by_known'] = st_.extra.get('shadowed_by_known', 0) + r['shadowed']
+            st_.extra.setdefault('shadowed_samples', []); st_.extra['shadowed_samples'] = (st_.extra['shadowed_samples'] + r['shadowed_text'])[:6]
         for kid in case.get('prewarm', []):
             # the input class of the finding (>=2 threads first-using the racy facility) was present and stepped over by the warm-up
             if r['summary'] and any(r['summary']['facilities'].get(f, 0) >= 2 for f in KNOWN[kid]['facs']):
